@@ -13,6 +13,10 @@ CHECKS = {
    text="TLA+ spec AckGen (what an ACK may contain, when it must be due, what the duplicate filter may answer) model-checked by TLC; TLC enumerates all arrival/tick/GetAck/forget-below sequences up to a length bound over a 6-number universe per packet-number space; each runs on the real ReceivedPacketHandler and every recorded call result (duplicate answer, queued flag, alarm, ACK ranges, ECN counts) is validated by TLC against the spec; seeded walks go beyond the 64 tracked ranges.",
    note="Trusted: TLC, harness projection (ackQueued/hasNewAck read in-package). Bounded: 6 packet numbers x 4-5 stimuli exhaustively; random walks over 400 numbers. The connection-level 'frames not processed twice' is covered only through the duplicate filter contract here.",
    technique="TLA+ model checking (TLC) + TLC-enumerated stimuli replayed into the real code + TLC trace validation"),
+ "C06": dict(engine="LossRecovery", design="5 C06",
+   text="TLA+ spec LossRecovery (frames resolved at most once and exactly once when their packet leaves the history, bytes-in-flight balance, bogus ACK => PROTOCOL_VIOLATION, timer obligation; loss decisions left open) model-checked by TLC per space; TLC enumerates all stimulus sequences of length 3-4 over sends/ACK patterns/timer/probes/drops/Retry/migration for both perspectives, seeded walks beyond; each runs on the real sentPacketHandler with recording frame handlers and every call's callbacks, history, bytes in flight, alarm and send mode are validated by TLC.",
+   note="Trusted: TLC, harness projection (history contents, bytesInFlight read in-package; skipping generator re-created with a short period). Loss thresholds and PTO arithmetic are not checked. One open known finding (ACK for an old skipped number accepted).",
+   technique="TLA+ model checking (TLC) + TLC-enumerated stimuli replayed into the real code + TLC trace validation"),
 }
 NA = {}
 
